@@ -38,14 +38,14 @@ struct HintGrid : EngineBase {
     const size_t n = base.size();
     for (int value = 1; value <= 2 * K + 1 && !g_cut; ++value) {
       for (size_t hint = 0; hint <= n && !g_cut; ++hint) {
-        for (int form = 0; form < 3 && !g_cut; ++form) {
+        for (int form = 0; form < 4 && !g_cut; ++form) {
           Val x = EI<E>::norm(Val(value, ++paycnt));
           Model m(cmp);
           bool present;
           long lb;
           { MonScope mm; m = base; present = m.count(x) != 0; lb = std::distance(m.begin(), m.lower_bound(x)); }
           std::string hc = static_cast<long>(hint) == lb ? "hint=lb" : static_cast<long>(hint) == lb + 1 ? "hint=lb+1" : static_cast<long>(hint) < lb ? "hint<lb" : "hint>lb+1";
-          set_op(form == 0 ? "insert(hint,const&)" : form == 1 ? "insert(hint,&&)" : "emplace_hint", n == 0 ? "empty" : "nonempty", (present ? "present," : "absent,") + hc,
+          set_op(form == 0 ? "insert(hint,const&)" : form == 1 ? "insert(hint,&&)" : form == 2 ? "emplace_hint" : "emplace_hint(value of another type)", n == 0 ? "empty" : "nonempty", (present ? "present," : "absent,") + hc,
                  fmt("mask=%ld hint=%zu value=%d", mask, hint, value));
           // two identical sets
           Set *s1, *s2;
@@ -58,7 +58,12 @@ struct HintGrid : EngineBase {
           { MonScope mm; e = new E(x.key, x.pay); }
           if (form == 0) window([&] { auto it_ = s1->insert(s1->begin() + hint, *e); got = it_ - s1->begin(); });
           else if (form == 1) window([&] { auto it_ = s1->insert(s1->begin() + hint, std::move(*e)); got = it_ - s1->begin(); });
-          else window([&] { auto it_ = s1->emplace_hint(s1->begin() + hint, x.key, x.pay); got = it_ - s1->begin(); });
+          else if (form == 2) window([&] { auto it_ = s1->emplace_hint(s1->begin() + hint, x.key, x.pay); got = it_ - s1->begin(); });
+          else {
+            // a single argument of another type that converts to the element (as emplace_hint(h, 4.5) on a set of int): the element is built first
+            Proto pr; pr.key = x.key; pr.pay = x.pay; pr.half = 1;
+            window([&] { auto it_ = s1->emplace_hint(s1->begin() + hint, pr); got = it_ - s1->begin(); });
+          }
           bool threw1 = threw;
           E *e2;
           { MonScope mm; delete e; e2 = new E(x.key, x.pay); }
